@@ -29,7 +29,7 @@ ALPHA10 = [
 NAMES = ['div', 'span', 'p', 'a', 'b', 'ul', 'li', 'br', 'img', 'input', 'hr', 'pre', 'table', 'td']
 ATTR_NAMES = ['id', 'name', 'title', 'data-x', 'href', 'checked', 'disabled', 'class', 'style', 'x_y', 'onclick']
 BAD_ATTR_NAMES = ['1a', 'a$b', '-x', 'a.b', 'a:b', '@k']
-VALUES = ['v', '', 'a b', 'x"y', "it's", 'a<b', 'a>b', '1', 'é☃', 'k  l', ' pad ', 'a=b']
+VALUES = ['v', '', 'a b', 'x"y', "it's", 'a<b', 'a>b', '1', 'é☃', 'k  l', ' pad ', 'a=b', 'v1\r\nv2']
 # white space of `str.isspace()` that is not ASCII (U+00A0, U+3000, U+2003, U+0085) or not in C's isspace (\x1c): leading,
 # trailing, inner — `str.strip()` removes it at the ends, `split(' ')` does not split at it
 UNI_CLASS_VALUES = ['\xa0k', 'k\u3000', 'k\xa0l', '\u2003k l\x1c', '\x85', ' \xa0 k']
@@ -37,10 +37,10 @@ UNI_STYLE_VALUES = ['\xa0color: red', 'color\u3000:\u2003red', 'color: red;\x1c'
 UNI_TEXTS = ['\xa0', '\u3000', 'x\xa0y', '\x1c', '\x85\n', '\u2003x']
 CLASS_VALUES = ['k', 'k l', ' k  l ', 'A b-c', '', None] + UNI_CLASS_VALUES
 STYLE_VALUES = ['color: red', 'color:red;float:left', ' padding-top : 5px ; ', 'display: none;;', '', 'Color: RED', None] + UNI_STYLE_VALUES
-TEXTS = ['x', ' ', '\n', 'hello world', '  two  ', 'a > b', 'é☃', '\t', 'x\ny', '1 < 2', 'a & b', 'R &'+' D'] + UNI_TEXTS
+TEXTS = ['x', ' ', '\n', 'hello world', '  two  ', 'a > b', 'é☃', '\t', 'x\ny', '1 < 2', 'a & b', 'R &'+' D', 'l1\r\nl2', 'x\ry'] + UNI_TEXTS
 ENTITIES = ['amp', 'lt', 'nbsp', 'copy']
 CHARREFS = ['65', 'x41', '8364', 'X3c']
-COMMENTS = ['c', ' spaced ', '', 'a-b', 'x > y', 'multi\nline']
+COMMENTS = ['c', ' spaced ', '', 'a-b', 'x > y', 'multi\nline', 'cr\r\nlf']
 
 
 def render_token(t, rng):
